@@ -20,6 +20,8 @@ func main() {
 		err = cmdSession(os.Args[2:])
 	case "viso":
 		err = cmdViso(os.Args[2:])
+	case "enc":
+		err = cmdEnc(os.Args[2:])
 	default:
 		err = fmt.Errorf("unknown sub-command %q", os.Args[1])
 	}
